@@ -253,7 +253,7 @@ func cmdC18(args []string) {
 		ladder = append(ladder, 100000, 1<<20)
 	}
 	shapes := []string{"bytes", "elements", "empties", "lines", "emptylines", "ows", "allowed-then-junk",
-		"allowed", "allowed-sp", "allowed-tab", "allowed-both", "allowed-lines", "allowed-empties", "allowed-upper", "allowed-title", "allowed-deep"}
+		"allowed", "allowed-sp", "allowed-tab", "allowed-both", "allowed-lines", "allowed-empties", "allowed-upper", "allowed-title", "allowed-pairs", "allowed-deep"}
 	measures := 0
 	for _, kc := range kinds {
 		m, err := cors.NewMiddleware(*kc.s.spell(rng))
@@ -324,6 +324,11 @@ func cmdC18(args []string) {
 								}
 								if shape == "allowed-lines" {
 									v = parts
+								} else if shape == "allowed-pairs" {
+									// several elements PER field line, over many lines (per-line work that a single line hides)
+									for q := 0; q < len(parts); q += 2 {
+										v = append(v, strings.Join(parts[q:min(q+2, len(parts))], ","))
+									}
 								} else {
 									v = []string{strings.Join(parts, sep)}
 								}
